@@ -17,13 +17,28 @@
 #
 # vim: set fileencoding=utf-8 :
 
+from collections import OrderedDict
+
 from ...BoundaryCondition.CConversionBoundaryCondition import CConversionBoundaryCondition
+from ...Volume.ConstructVolumeT4 import extract_used_surfaces
 
 
-def writeT4BoundCond(dic_surf_mcnp, ofile):
-    '''Method writing GeomComp to the T4 input file.'''
-    d_boundCond = CConversionBoundaryCondition(
+def writeT4BoundCond(dic_surf_mcnp, dic_volume, renumber, ofile):
+    '''Method writing the boundary conditions to the T4 input file.
+
+    The boundary conditions must designate surfaces that are actually
+    written in the geometry: `renumber` (the renumbering produced by surface
+    deduplication, or `None`) is applied to the MCNP surface numbers, and
+    surfaces that do not bound any converted volume are left out.
+    '''
+    d_boundCondMCNP = CConversionBoundaryCondition(
         dic_surf_mcnp).conversionBoundCond()
+    surf_used = extract_used_surfaces(dic_volume.values())
+    d_boundCond = OrderedDict()
+    for key, bound_cond in d_boundCondMCNP.items():
+        t4_key = key if renumber is None else renumber.get(key, key)
+        if t4_key in surf_used and t4_key not in d_boundCond:
+            d_boundCond[t4_key] = bound_cond
     if not d_boundCond:
         return
     ofile.write("\nBOUNDARY_CONDITION\n")
